@@ -29,7 +29,7 @@ CLAIMED["C11"] = ("error-discipline rules (no error dropped, typed entries, list
  "DESIGN.md §3 C11")
 CLAIMED["C12"] = ("typestate abstract interpretation of terminal matchers and inversion parity; AST/ordering rules on failAt and message synthesis",
  "Sound static decision of: every terminal outcome reported exactly once with correct polarity, start position and own label; inversion scoped to !; message built from de-duplicated, sorted expected list with EOF last at maxFailPos; failAt keeps the farthest offset.",
- "Not decided: the global induction that the reported offset is the maximum over a whole backtracking run (follows from C12-a/d but is not mechanised); memo-hit paths.",
+ "Not decided: the global induction that the reported offset is the maximum over a whole backtracking run (follows from C12-a/d but is not mechanised). Memo-hit paths are decided and are known findings (F20: failure reports are not replayed on a hit); the initial failure position is a known finding (F21).",
  "DESIGN.md §3 C12")
 CLAIMED["C14"] = ("typestate abstract interpretation of the handler stack (push/pop pairing, scan order, first success); builder field pairing; traversal exhaustiveness",
  "Sound static decision of: handlers in force exactly during the guarded evaluation; throw scans innermost-first, returns the first succeeding handler, fails after the scan; builder emits the right fields; generator traversals handle both kinds (F1, repaired).",
@@ -80,8 +80,8 @@ CLAIMED["C10"] = ("partial evaluation of the standard template variant + syntact
  "Relies on C05, C06-a/c/w (their own checks). Trusted: the five folding rules, go/parser, go/printer.",
  "DESIGN.md §3 C10")
 CLAIMED["C15"] = ("sibling agreement between the general class matcher and BasicLatinLookup (uniform case folding); fast-path wiring in the 8 table variants; table emission in the builder",
- "Narrow claim: one structural necessary condition of table ≡ general path (case folding handled for all three member sources; finding F7 repaired) plus the wiring of the fast path and of the table emission.",
- "Not decided: equality of the two procedures over all classes × 128 runes (observation O2: [Z-a]i differs; no sound general rule in this technique family).",
+ "Narrow claim: structural necessary conditions of table ≡ general path - case folding handled for all three member sources (finding F7 repaired), both case twins of every member, no skipped rune, inclusive range ends, the Basic Latin filter applied to the folded member (finding F17 repaired), range end points not case-mapped one by one (finding F16, known) - plus the wiring of the fast path and of the table emission.",
+ "Not decided: equality of the two procedures over all classes × 128 runes beyond the listed clauses.",
  "DESIGN.md §3 C15")
 CLAIMED["C20"] = ("artifact consistency by static comparison (string tables vs template source, gofmt-normalised static tail of all 47 generated parsers vs the variant for the Makefile flags, recipe coverage, position anchors vs .peg bytes)",
  "Decides the artifact half: what regeneration would establish — no checked-in generated file is stale with respect to the template, its recipe's flags, or its grammar's node positions; plus sibling-agreement rules between the two front-ends (shared grammar rules, literal decoding, verbatim code blocks, binding strength of the hand-written parser).",
